@@ -15,6 +15,21 @@ claimed = {
   "note": NOTE_COMMON + "translator sha_consts.py; Node stripTypeScriptTypes; JS doubles exact below 2^53 bits; SHA-256 collision resistance is an assumption of the property, not an axiom.",
   "technique": "Lean 4 proof (writer invariant by induction over the chunk list, padding case split) + regenerated constant tables checked by decide +kernel + correspondence vs real runtime",
   "design": "§5 C13", "engines": ["lean-model", "js-host"]},
+ "C03": {
+  "text": "Lean 4 theorems over a hand-written executable model of every *Runtype class (validate / parseAfterValidation incl. deepmerge / reportDecodeError / safeParse / parse): the three entry points agree on acceptance for every runtype, value, option and fuel (safeParse_success_iff_validate, safeParse_failure_iff_not_validate, parse_agrees_safeParse, parse_returns_iff_validate). The re-validation / projection / idempotence clauses are FALSE of the current code for named shapes: negations are proved with concrete witnesses (D28, D29) and the shapes are decidable hypotheses evaluated by the Lean driver on every request. Tie: the model is run against the REAL runtime classes on type-directed random (env, runtype, value, option) quadruples and must reproduce validate, both safeParse outputs (data or full error trees) and the parse message verbatim; the seven C03 relations are evaluated on the JS results by an impl-only oracle. Several genuine defects were repaired (fix: commits D6, D7, D23, D27, D31, D34, D35).",
+  "note": NOTE_COMMON + "Model of codegen-v2.ts:34-2430 + err.ts; no-mutation is only observed by the harness; property names outside the modelled vocabulary on non-plain objects, cyclic inputs, getters, sparse arrays, lone surrogates are outside the model.",
+  "technique": "Lean 4 proof (definitional case analysis; decide +kernel witnesses for the negations) + verbatim model/implementation correspondence on the real runtime + JS property oracle",
+  "design": "§5 C03", "engines": ["lean-model", "js-host"]},
+ "C11": {
+  "text": "Lean 4: strict_implies_default is proved at FULL strength by induction on fuel over all 23 runtype constructors (whenever both modes answer, strict acceptance implies default acceptance); strict_object_iff characterises one object position (strict ⟺ declared properties accepted ∧ every own key declared); strict_irrelevant_with_index. The full 'exactly the undeclared keys' statement is false for intersections of named object types (D9): negation proved (split_intersection_rejects_declared_keys), hypothesis NoSplitIntersection evaluated per request. Tie/search: same harness as C03 with an independent declarative reference for strict acceptance computed on the runtype description.",
+  "note": NOTE_COMMON + "Model of ObjectRuntype/AllOfRuntype.validate (codegen-v2.ts:1346-1357, 2073-2117) inside the full validate model.",
+  "technique": "Lean 4 proof (induction on fuel, all constructors) + correspondence + declarative strict-acceptance reference oracle",
+  "design": "§5 C11", "engines": ["lean-model", "js-host"]},
+ "C12": {
+  "text": "Lean 4: safeParse_errors_le_10 (full strength), union_reports_one, leaf_reports_received, tuple_surplus_reported (the repaired D8), printErrors determinism (model is a pure function); witness that allOf [] is the only shape with an empty report (hypothesis NoEmptyIntersection). report_nonempty / paths_resolve for all constructors are not yet proved and are decided by the correspondence (full error trees compared verbatim with the real reportDecodeError/printErrors) plus the JS oracle (1..10 errors, every nested path resolves, received = value at path, rendering total and deterministic).",
+  "note": NOTE_COMMON + "Model of reportDecodeError of every class, buildUnionError/maxErrorDepth/dedup (JSON.stringify modelled incl. ISO dates, bigint replacer), err.ts printErrors.",
+  "technique": "Lean 4 proof (bounds, shape lemmas, decide +kernel witnesses) + verbatim error-tree correspondence + JS path/received oracle",
+  "design": "§5 C12", "engines": ["lean-model", "js-host"]},
 }
 pending_reason = "not yet built in this round (planned: DESIGN.md §5/§8); no claim is made until its model, theorems and correspondence check exist"
 m = {"version": 1, "setup_cmd": "bin/setup",
